@@ -200,7 +200,22 @@ func (g *Gen) genC08() {
 		default: // near misses
 			base := []string{"INVITE", "sip:a@b", "SIP/2.0"}
 			rep := []string{"SIP/2.0", "200", "OK"}
-			switch r.N(14) {
+			if r.P(50) {
+				// same shapes with arbitrary tokens
+				base = []string{tok(), tok(), tok()}
+				if strings.HasPrefix(asciiLower(base[0]+" "), "sip/2.0 ") {
+					base[0] = "M" + base[0]
+				}
+			}
+			switch r.N(18) {
+			case 14: // a token missing between two separators
+				line = base[0] + "  " + base[2] + eol
+			case 15:
+				line = base[0] + " " + base[1] + " " + eol
+			case 16:
+				line = " " + base[1] + " " + base[2] + eol
+			case 17:
+				line = base[0] + r.Pick(" \t", "\t ", "\t\t") + base[2] + eol
 			case 12, 13: // status code of three bytes one of which is not a digit (bytes next to '0'..'9', letters)
 				d := []byte(fmt.Sprintf("%03d", r.N(1000)))
 				d[r.N(3)] = "/:aAzZ;.-+ "[r.N(11)]
